@@ -920,7 +920,26 @@ def _run_case(spec):
         outs.append(f"ok D={show_sx(D)} A={show_sx(A)} " + obs(tri))
         stats["inserted"] += 1
         if is_dup:
-            fail("duplicate_rejected", f"the point {point} is already vertex {X0.index(point)} but add_point accepted it (hint {hint})", k)
+            v = X0.index(point)
+            # mechanism: within its eps the vertex also lies in a simplex it is not a vertex of (a tolerance-level T-junction
+            # left by an earlier insertion "inside" a simplex that was really on its edge), locate_point returns that simplex
+            # first and the duplicate test (reduced simplex = one vertex) never sees the vertex
+            foreign = None
+            if hint is None:
+                for sx in S0:
+                    if v not in sx:
+                        try:
+                            if tri.point_in_simplex(point, sx):
+                                foreign = sx
+                                break
+                        except Exception:
+                            pass
+            if foreign is not None:
+                fail("duplicate_rejected:vertex_located_in_foreign_simplex_within_eps",
+                     f"the point {point} is already vertex {v}; within the in-simplex tolerance it also lies in simplex {foreign}, of "
+                     f"which it is not a vertex, so locate_point found that simplex and add_point inserted the point again", k)
+            else:
+                fail("duplicate_rejected", f"the point {point} is already vertex {v} but add_point accepted it (hint {hint})", k)
             break
         if D != S0 - S1 or A != S1 - S0:
             fail("report_exact", f"add_point returned deleted={show_sx(D)} added={show_sx(A)} but the simplices actually removed are "
